@@ -294,7 +294,7 @@ func genC08(c *Ctx) {
 		c.Count("cancelling-pair.equal=" + c.Emit("equal "+encPos(a)+" "+encPos(b)))
 		c.Emit("equal " + encPos(b) + " " + encPos(a))
 	}
-	n := c.Scale(5000, 500000)
+	n := c.Scale(5000, 250000)
 	for k := 0; k < n; k++ {
 		p := randomPosition(c.R)
 		classifyPos(c, p)
